@@ -788,9 +788,10 @@ class Columns(Widget, WidgetContainerMixin, WidgetContainerListContentsMixin):
             if weighted and weighted[0][1] == i:
                 del weighted[0]
 
-        if shared:
-            # divide up the remaining space between weighted cols
-            wtotal = sum(weight for weight, i in weighted)
+        # divide up the remaining space between weighted cols
+        # (columns whose weights are all zero have nothing to share: they keep min_width)
+        wtotal = sum(weight for weight, i in weighted)
+        if shared and wtotal > 0:
             grow = shared + len(weighted) * self.min_width
             for weight, i in sorted(weighted):
                 width = max(int(grow * weight / wtotal + 0.5), self.min_width)
